@@ -6,6 +6,7 @@ import (
 	"math/rand"
 	"os"
 	"runtime"
+	"strings"
 	"time"
 
 	"verifharness/ast"
@@ -87,6 +88,14 @@ func piecesGen(args []string) {
 			if r.Intn(5) == 0 {
 				pieces = append(pieces, failingPiece(r))
 			}
+			if r.Intn(6) == 0 {
+				// the host's own variable: assigned by one input, read by this and by later ones
+				sts := []any{N{"k": "assign", "n": "hostv", "op": []string{"=", "+=", "*="}[r.Intn(3)], "e": ast.Int(2 + r.Intn(5))}, ast.ExprStmt(ast.Id("hostv"))}
+				if r.Intn(2) == 0 {
+					sts = []any{ast.ExprStmt(ast.Bin("+", ast.Id("hostv"), ast.Int(100)))}
+				}
+				pieces = append(pieces, N{"kind": "code", "ast": sts, "hoist": []any{}, "declares": false, "src": ast.Render(sts)})
+			}
 			if r.Intn(8) == 0 {
 				// an input that is stopped through its context: it prints a mark and then loops until the deadline
 				mark := 700 + r.Intn(90)
@@ -108,7 +117,14 @@ func piecesGen(args []string) {
 		for _, nm := range known {
 			globals = append(globals, nm)
 		}
-		rows = append(rows, N{"id": i, "pieces": pieces, "globals": globals, "forward": false})
+		// (a history that uses the host's variable has no whole-program counterpart in the spec lemma: "forward")
+		usesHost := false
+		for _, p := range pieces {
+			if src, _ := p["src"].(string); strings.Contains(src, "hostv") {
+				usesHost = true
+			}
+		}
+		rows = append(rows, N{"id": i, "pieces": pieces, "globals": globals, "forward": usesHost})
 	}
 	// global-sharing scenarios: functions defined in one piece read and write globals that other pieces
 	// assign before and after; every statement is a piece of its own
